@@ -1,1 +1,4 @@
 import Vflow.Props.C19
+import Vflow.Props.C02Flow
+import Vflow.Props.C03
+import Vflow.Props.C06
